@@ -496,12 +496,21 @@ func cmdCheck(args []string) int {
 		np := loadNotClaimed()
 		sem2 := make(chan struct{}, 2)
 		var wg3 sync.WaitGroup
+		// many undischarged obligations at once are not a scheduling accident: do not spend the
+		// retry budget on them (a change that breaks an invariant typically breaks several)
+		nRetry := 0
 		for _, r := range todo {
 			ob := r.j.vc.Obs[r.k]
-			if ob.Result != "timeout" && ob.Result != "unknown" && ob.Result != "error" {
+			if (ob.Result == "timeout" || ob.Result == "error") && !np.has(ob.Name) {
+				nRetry++
+			}
+		}
+		for _, r := range todo {
+			ob := r.j.vc.Obs[r.k]
+			if ob.Result != "timeout" && ob.Result != "error" {
 				continue
 			}
-			if np.has(ob.Name) {
+			if np.has(ob.Name) || nRetry > 6 {
 				continue
 			}
 			wg3.Add(1)
